@@ -5,8 +5,11 @@ import (
 	"fmt"
 	"github.com/hashicorp/eventlogger/formatter_filters/cloudevents"
 	"net/url"
+	"os"
+	"path/filepath"
 	"sort"
 	"strings"
+	"syscall"
 	"time"
 
 	el "github.com/hashicorp/eventlogger"
@@ -213,6 +216,34 @@ func runReentrant(rc *RunCtx) {
 	}
 	for _, id := range ids {
 		desc.Pipeline = append(desc.Pipeline, string(id))
+	}
+
+	// a second pipeline of the same type ends in the library's FileSink on a disk that fails some writes
+	// outright (EIO, nothing written): an error for that event; the sink, and every Broker call through
+	// it, must stay usable
+	if tp.Choose(3, "file-pipeline") == 0 {
+		dir, err := os.MkdirTemp("", "simre-")
+		if err != nil {
+			panic(err)
+		}
+		rc.Dir = dir
+		rate := 10 + tp.Choose(30, "faultrate")
+		sim.FSFault = func(s *simrt.Sim, op simrt.FSOp) simrt.FSAnswer {
+			a := simrt.FSAnswer{Short: -1}
+			if op.Op == "write" && s.Tape.Choose(100, "fault?") < rate {
+				a.Errno, a.Short = int(syscall.EIO), 0
+				s.FS.Faults["write-eio"]++
+			}
+			return a
+		}
+		broker.RegisterNode("jf", &el.JSONFormatter{})
+		broker.RegisterNode("fsink", &el.FileSink{Path: filepath.Join(dir, "logs"), FileName: "re.log", MaxBytes: 400})
+		if err := broker.RegisterPipeline(el.Pipeline{PipelineID: "pfile", EventType: "ta", NodeIDs: []el.NodeID{"jf", "fsink"}}); err != nil {
+			rc.Failf("C12.setup", "", "cannot register the file pipeline: %v", err)
+			return
+		}
+		desc.Reentry = append(desc.Reentry, fmt.Sprintf("a second pipeline ends in a FileSink whose writes fail with probability %d%%", rate))
+		simrt.Probe("reentry.file-pipeline")
 	}
 
 	type step struct {
